@@ -50,6 +50,7 @@ func runC12(w *World, r *Report) {
 	r.Rule("C12/WIRING", "DisableHooks is never fed from a differently named option and is carried into the operations started on behalf of another (upgrade --install, atomic rollback/uninstall)", 3)
 	checkWiring(w, r, "C12/WIRING", map[string]bool{"DisableHooks": true})
 	checkCarried(w, r, "C12/WIRING", []string{"DisableHooks"})
+	checkFlagBinding(w, r, "C12/WIRING", map[string]bool{"DisableHooks": true})
 }
 
 func c12FindExecHook(w *World) *ssa.Function {
